@@ -266,6 +266,8 @@ type fhCmd struct {
 	// RENDERING only (no effect on what runs, not part of the case line): the command — or the `task:`
 	// call — carries `silent: true`
 	Silent bool `json:"silent,omitempty"`
+	// `ignore_error: true` on the command (the code honours it for plain commands only, not for `task:` calls)
+	IgnoreError bool `json:"ignore_error,omitempty"`
 }
 
 type fhTask struct {
@@ -279,6 +281,11 @@ type fhTask struct {
 	Status    []string `json:"status,omitempty"`    // files tested with `test -f`, relative to the project root
 	Cmds      []fhCmd  `json:"cmds"`
 	Silent    bool     `json:"silent,omitempty"` // RENDERING only: `silent: true` on the task
+	// `ignore_error: true` on the task: a command or call that ends with a failing exit status is skipped over
+	IgnoreError bool `json:"ignore_error,omitempty"`
+	// indices of the generates entries written `${G:?}/<glob>`: expanding them is an error while the
+	// environment variable G is not set (step flag `no_g`); method checksum only
+	GGuard []int `json:"gguard,omitempty"`
 }
 
 type fhStep struct {
@@ -299,6 +306,8 @@ type fhStep struct {
 	// sibling that fails while this task's `status:` commands are running (they wait on a gate file the
 	// sibling creates just before it exits 1): cancelled between the up-to-date check and the first command
 	Sib bool `json:"sib,omitempty"`
+	// NoG: the environment variable G is NOT set in this invocation (entries `${G:?}/…` cannot be expanded)
+	NoG bool `json:"no_g,omitempty"`
 }
 
 // The fields below `Steps` are RENDERING choices: they change how the abstract case is laid out on
@@ -310,12 +319,15 @@ type fhStep struct {
 //	LinkDirs   root-relative directories created as symbolic links to directories outside the project
 //	           (the real expander follows them, also below `**`)
 //	SilentFile `silent: true` at the top of the root Taskfile
+//	Dangling   root-relative paths OUTSIDE the universe of the case that exist, from the start, as symbolic
+//	           links to nothing: a glob expands to them, but they are no files (not matched, not in the snapshot)
 type fhCase struct {
 	Tasks      []fhTask `json:"tasks"`
 	Steps      []fhStep `json:"steps"`
 	LinkFiles  []string `json:"link_files,omitempty"`
 	LinkDirs   []string `json:"link_dirs,omitempty"`
 	SilentFile bool     `json:"silent_file,omitempty"`
+	Dangling   []string `json:"dangling,omitempty"`
 }
 
 var fhModes = map[string]int{"run": 0, "force": 1, "dry": 2, "status": 3, "listjson": 4, "list": 5, "summary": 6}
@@ -359,6 +371,7 @@ type fhRun struct {
 	linkF   map[string]bool // root-relative paths rendered as symbolic links to files
 	linkD   map[string]bool // root-relative directories rendered as symbolic links
 	nShared int
+	dangling map[string]bool // root-relative paths that are links to nothing (a rendering choice)
 }
 
 type fhViol struct {
@@ -465,6 +478,9 @@ func (r *fhRun) writeTaskfiles() {
 		if t.Silent {
 			b.WriteString("    silent: true\n")
 		}
+		if t.IgnoreError {
+			b.WriteString("    ignore_error: true\n")
+		}
 		// patterns given through task variables
 		nv := 0
 		for _, gs := range [][]fhGlob{t.Sources, t.Generates} {
@@ -487,8 +503,15 @@ func (r *fhRun) writeTaskfiles() {
 				continue
 			}
 			fmt.Fprintf(b, "    %s:\n", kv.k)
-			for _, g := range kv.gs {
+			for gi, g := range kv.gs {
 				txt := yamlQ(g.Glob)
+				if kv.k == "generates" && !g.Tmpl {
+					for _, x := range t.GGuard {
+						if x == gi {
+							txt = yamlQ("${G:?}/" + g.Glob)
+						}
+					}
+				}
 				if g.Tmpl {
 					txt = fmt.Sprintf("'{{.GV%d}}'", nv)
 					nv++
@@ -514,10 +537,17 @@ func (r *fhRun) writeTaskfiles() {
 		}
 		b.WriteString("    cmds:\n")
 		body := func(k int, c fhCmd, indent string) {
-			if c.Silent && c.Need == "" {
+			switch {
+			case c.Need == "" && c.Silent && c.IgnoreError:
+				fmt.Fprintf(b, "%s- silent: true\n%s  ignore_error: true\n%s  cmd: |\n", indent, indent, indent)
+				indent += "  "
+			case c.Need == "" && c.Silent:
 				fmt.Fprintf(b, "%s- silent: true\n%s  cmd: |\n", indent, indent)
 				indent += "  "
-			} else {
+			case c.Need == "" && c.IgnoreError:
+				fmt.Fprintf(b, "%s- ignore_error: true\n%s  cmd: |\n", indent, indent)
+				indent += "  "
+			default:
 				fmt.Fprintf(b, "%s- |\n", indent)
 			}
 			fmt.Fprintf(b, "%s  if [ \"$KILL_AT\" = \"%d\" ]; then sh -c 'kill -KILL $PPID'; sleep 30; fi\n", indent, k)
@@ -532,6 +562,9 @@ func (r *fhRun) writeTaskfiles() {
 				fmt.Fprintf(b, "      - task: zh%d-%d\n", i, k)
 				if c.Silent {
 					b.WriteString("        silent: true\n")
+				}
+				if c.IgnoreError {
+					b.WriteString("        ignore_error: true\n")
 				}
 				continue
 			}
@@ -625,9 +658,13 @@ func (r *fhRun) caseLine(src, gen [][][]int) string {
 		if t.Dir != "" {
 			d = r.did[t.Dir] + 1
 		}
-		fmt.Fprintf(&sb, " %s %s %d %s %d", hx(t.Name), hx(t.Label), m, b2s(t.Prompt), d)
+		fmt.Fprintf(&sb, " %s %s %d %s %d %s", hx(t.Name), hx(t.Label), m, b2s(t.Prompt), d, b2s(t.IgnoreError))
 		pats(t.Sources, src[i])
 		pats(t.Generates, gen[i])
+		fmt.Fprintf(&sb, " %d", len(t.GGuard))
+		for _, x := range t.GGuard {
+			fmt.Fprintf(&sb, " %d", x)
+		}
 		fmt.Fprintf(&sb, " %d", len(t.Status))
 		for _, s := range t.Status {
 			fmt.Fprintf(&sb, " %d", r.pid[s])
@@ -643,13 +680,14 @@ func (r *fhRun) caseLine(src, gen [][][]int) string {
 			} else {
 				sb.WriteString(" 0")
 			}
+			sb.WriteString(" " + b2s(c.IgnoreError))
 		}
 	}
 	fmt.Fprintf(&sb, " %d", len(r.d.Steps))
 	for _, s := range r.d.Steps {
 		switch s.Kind {
 		case "inv":
-			fmt.Fprintf(&sb, " I %d %d %d %s %d %d %s", s.Task, fhModes[s.Mode], s.Now, b2s(s.Yes), s.Fail+1, s.Kill+1, b2s(s.Sib))
+			fmt.Fprintf(&sb, " I %d %d %d %s %d %d %s %s", s.Task, fhModes[s.Mode], s.Now, b2s(s.Yes), s.Fail+1, s.Kill+1, b2s(s.Sib), b2s(!s.NoG))
 		case "write":
 			fmt.Fprintf(&sb, " W %d %s %d", r.pid[s.Path], hx(s.Content), s.Mtime)
 		case "touch":
@@ -865,6 +903,8 @@ func (r *fhRun) walk(fn func(abs string, info os.FileInfo)) {
 			if li.Mode()&os.ModeSymlink != 0 {
 				if st, err := os.Stat(p); err == nil {
 					info = st
+				} else if r.dangling[relTo(r.root, p)] {
+					continue // a link to nothing that the case put there: no file
 				}
 			}
 			if info.IsDir() {
@@ -919,6 +959,27 @@ func lutimes(path string, sec int64) {
 	syscall.Syscall6(syscall.SYS_UTIMENSAT, uintptr(fd), uintptr(unsafe.Pointer(b)), uintptr(unsafe.Pointer(&ts[0])), atSymlinkNofollow, 0, 0)
 }
 
+// ensureDangling (re)creates the links to nothing of the case — below a task directory only while that
+// directory exists (the model tracks which task directories exist; the links must not create them)
+func (r *fhRun) ensureDangling() {
+	for _, p := range r.d.Dangling {
+		ok := true
+		for _, d := range r.dirs {
+			if strings.HasPrefix(p, d+"/") {
+				if st, err := os.Stat(filepath.Join(r.root, d)); err != nil || !st.IsDir() {
+					ok = false
+				}
+			}
+		}
+		abs := filepath.Join(r.root, p)
+		if _, err := os.Lstat(abs); err == nil || !ok {
+			continue
+		}
+		r.mkParents(p)
+		os.Symlink(filepath.Join(r.work, "nowhere"), abs)
+	}
+}
+
 func (r *fhRun) applyOp(s fhStep) {
 	p := filepath.Join(r.root, s.Path)
 	switch s.Kind {
@@ -963,7 +1024,7 @@ func (r *fhRun) invokeRaw(args []string, fail, kill string) error {
 	cmd := exec.CommandContext(ctx, r.bin, args...)
 	cmd.Dir = r.root
 	cmd.Env = []string{"PATH=/usr/local/bin:/usr/bin:/bin", "HOME=" + filepath.Join(r.work, "home"), "NO_COLOR=1",
-		"TRACE=" + filepath.Join(r.work, "trace-probe"), "R=" + r.root, "FAIL_AT=" + fail, "KILL_AT=" + kill}
+		"TRACE=" + filepath.Join(r.work, "trace-probe"), "R=" + r.root, "FAIL_AT=" + fail, "KILL_AT=" + kill, "G=."}
 	cmd.WaitDelay = 2 * time.Second
 	return cmd.Run()
 }
@@ -1036,6 +1097,9 @@ func (r *fhRun) invoke(s fhStep) fhInv {
 	}
 	cmd.Env = []string{"PATH=/usr/local/bin:/usr/bin:/bin", "HOME=" + filepath.Join(r.work, "home"), "NO_COLOR=1",
 		"TRACE=" + trace, "R=" + r.root, "FAIL_AT=" + fail, "KILL_AT=" + kill, "GATE=" + gate}
+	if !s.NoG {
+		cmd.Env = append(cmd.Env, "G=.")
+	}
 	var so, se bytes.Buffer
 	cmd.Stdout, cmd.Stderr = &so, &se
 	cmd.WaitDelay = 2 * time.Second
@@ -1125,6 +1189,7 @@ func (r *fhRun) run(only map[int]bool) {
 	os.MkdirAll(r.root, 0o755)
 	os.MkdirAll(filepath.Join(r.work, "home"), 0o755)
 	r.writeTaskfiles()
+	r.ensureDangling()
 	prev := r.snapshot()
 	for k, s := range r.d.Steps {
 		if only != nil && !only[k] {
@@ -1137,6 +1202,7 @@ func (r *fhRun) run(only map[int]bool) {
 		}
 		if s.Kind != "inv" {
 			r.applyOp(s)
+			r.ensureDangling()
 			r.learnStreams()
 			snap := r.snapshot()
 			r.segs = append(r.segs, r.render(snap))
@@ -1185,6 +1251,7 @@ func (r *fhRun) run(only map[int]bool) {
 		}
 		pre := r.render(prev)
 		o := r.invoke(s)
+		r.ensureDangling()
 		r.learnStreams()
 		snap := r.snapshot()
 		post := r.render(snap)
@@ -1423,6 +1490,10 @@ func newFhRun(d fhCase) *fhRun {
 	for _, p := range d.LinkDirs {
 		r.linkD[p] = true
 	}
+	r.dangling = map[string]bool{}
+	for _, p := range d.Dangling {
+		r.dangling[p] = true
+	}
 	r.paths, r.dirs = fhUniverse(d)
 	for i, p := range r.paths {
 		r.pid[p] = i
@@ -1527,7 +1598,7 @@ func (g *fhGen) chance(pct int) bool     { return g.c.Rng.Intn(100) < pct }
 
 var fhNames = []string{"x", "y", "a-b", "a.b", "a:b", "a:c", "a-c", "a_b"}
 var fhSrcPool = []string{"a.e", "b.e", "c.x", "d/a.e", "d/b.e", "e/a.e", "e/c.x"}
-var fhSrcPats = []string{"a.e", "*.e", "d/*", "**/*.e", "e/*.e", "*.x", "**/a.*", "d/a.e", "**/*.x"}
+var fhSrcPats = []string{"a.e", "*.e", "d/*", "**/*.e", "e/*.e", "*.x", "**/a.*", "d/a.e", "**/*.x", "{a,b}.e", "d/{a,b}.e", "{a.e,c.x}"}
 
 func (g *fhGen) content() string {
 	n := 1 + g.c.Rng.Intn(3)
@@ -1729,6 +1800,115 @@ func (g *fhGen) genLinks() fhCase {
 	return d
 }
 
+// genDirected4to6: three small directed streams for the repaired defects F8C–F8E.
+//
+//	ignore   (c05) a task with `ignore_error` (on the task, or on the failing command): the run whose
+//	         command k fails with an ignored exit status exits ok and KEEPS its fingerprint: the next run
+//	         is up to date (before F8C the task-level form lost it on every run)
+//	drop     (c05) a sources pattern one of whose expanded fields does not exist — `{a,b}.e` with b.e
+//	         absent, a glob next to a dangling symbolic link —: the other matches still count, an edit of
+//	         a.e is noticed (before F8E the whole pattern was dropped)
+//	checkerr (c04) a checksum task with a generates entry `${G:?}/…`: a run without G ends with the error
+//	         of the check and leaves NO checksum; with G set and the generates file in place the next run
+//	         executes the commands (before F8D it was "up to date")
+func (g *fhGen) genDirected4to6(kind string) fhCase {
+	rng := g.c.Rng
+	t := fhTask{Name: g.pick([]string{"x", "y", "a-b", "a_b"}), Cmds: []fhCmd{{}, {}}}
+	if g.chance(40) {
+		t.Method = "checksum"
+	}
+	root := ""
+	if g.chance(25) {
+		t.Dir = "sub"
+		root = "sub/"
+	}
+	var d fhCase
+	add := func(st fhStep) {
+		st.Fail, st.Kill = st.Fail-1, -1 // Fail is given 1-based here (0 = none)
+		switch st.Kind {
+		case "inv":
+			st.Yes, st.Now = true, int64(1000*(len(d.Steps)+1))
+		case "write", "touch":
+			st.Mtime = int64(1000*len(d.Steps) + 500)
+		}
+		d.Steps = append(d.Steps, st)
+	}
+	src := root + "a.e"
+	switch kind {
+	case "ignore":
+		if g.chance(35) {
+			t.Method = "timestamp"
+		}
+		t.Sources = []fhGlob{{Glob: "*.e"}}
+		k := rng.Intn(2)
+		if g.chance(60) {
+			t.IgnoreError = true
+		} else {
+			t.Cmds[k].IgnoreError = true
+		}
+		if g.chance(40) {
+			t.Cmds[1-k].Writes = []fhWrite{{Path: root + "out0_0.o", Content: "o"}}
+		}
+		d.Tasks = []fhTask{t}
+		add(fhStep{Kind: "write", Path: src, Content: g.content()})
+		add(fhStep{Kind: "inv", Mode: g.pick([]string{"run", "run", "force"}), Fail: k + 1})
+		add(fhStep{Kind: "inv", Mode: "run"})
+		if g.chance(50) {
+			add(fhStep{Kind: "write", Path: src, Content: g.content() + "i"})
+			add(fhStep{Kind: "inv", Mode: "run", Fail: k + 1})
+			add(fhStep{Kind: "inv", Mode: g.pick([]string{"run", "status", "listjson"})})
+		}
+	case "drop":
+		if g.chance(35) {
+			t.Method = "timestamp"
+		}
+		pat := g.pick([]string{"{a,b}.e", "{a.e,c.x}", "*.e", "d/*", "**/*.e"})
+		t.Sources = []fhGlob{{Glob: pat}}
+		switch pat {
+		case "*.e":
+			d.Dangling = []string{root + "zz.e"}
+		case "d/*":
+			d.Dangling = []string{root + "d/zz.e"}
+			src = root + "d/a.e"
+		case "**/*.e":
+			d.Dangling = []string{root + g.pick([]string{"zz.e", "d/zz.e"})}
+		}
+		if g.chance(30) {
+			t.Sources = append(t.Sources, fhGlob{Glob: "c.x"})
+		}
+		d.Tasks = []fhTask{t}
+		add(fhStep{Kind: "write", Path: src, Content: g.content()})
+		add(fhStep{Kind: "inv", Mode: "run"})
+		add(fhStep{Kind: "write", Path: src, Content: g.content() + "d"})
+		add(fhStep{Kind: "inv", Mode: g.pick([]string{"run", "run", "status"})})
+		if g.chance(40) {
+			add(fhStep{Kind: "inv", Mode: "run"})
+		}
+	default: // checkerr
+		if t.Method == "" && g.chance(50) {
+			t.Method = "checksum"
+		}
+		out := root + "out0_0.o"
+		t.Sources = []fhGlob{{Glob: "a.e"}}
+		t.Generates = []fhGlob{{Glob: "out0_0.o"}}
+		t.GGuard = []int{0}
+		t.Cmds[0].Writes = []fhWrite{{Path: out, Content: "o"}}
+		d.Tasks = []fhTask{t}
+		add(fhStep{Kind: "write", Path: src, Content: g.content()})
+		if g.chance(70) {
+			add(fhStep{Kind: "write", Path: out, Content: "x"})
+		}
+		add(fhStep{Kind: "inv", Mode: g.pick([]string{"run", "run", "run", "dry", "status", "listjson"}), NoG: true})
+		add(fhStep{Kind: "inv", Mode: "run"})
+		if g.chance(50) {
+			add(fhStep{Kind: "write", Path: src, Content: g.content() + "g"})
+			add(fhStep{Kind: "inv", Mode: "run", NoG: true})
+			add(fhStep{Kind: "inv", Mode: g.pick([]string{"run", "status"})})
+		}
+	}
+	return d
+}
+
 // genSibling: the CANCELLED-BY-A-SIBLING stream (c04).  One task with sources and a `status:` file, of
 // either method; the source and the status file are in place; optionally a first successful run and an
 // edit; then the task runs as a dependency next to a sibling that fails while the task's status command
@@ -1796,6 +1976,12 @@ func (g *fhGen) gen(maxLen int) fhCase {
 	rng := g.c.Rng
 	if g.prop == "c04" && g.chance(5) {
 		return g.genSibling()
+	}
+	if g.prop == "c04" && g.chance(4) {
+		return g.genDirected4to6("checkerr")
+	}
+	if g.prop == "c05" && g.chance(8) {
+		return g.genDirected4to6(g.pick([]string{"ignore", "drop"}))
 	}
 	if g.prop == "c05" && g.chance(8) {
 		return g.genShift()
@@ -1928,6 +2114,24 @@ func (g *fhGen) gen(maxLen int) fhCase {
 		if g.chance(25) {
 			info.flag = fmt.Sprintf("%sok%d.f", root, i)
 			t.Status = []string{info.flag}
+		}
+		// ignore_error on the task / on single commands: a failing exit status is skipped over
+		if g.chance(12) {
+			t.IgnoreError = true
+		}
+		for k := range t.Cmds {
+			if g.chance(10) {
+				t.Cmds[k].IgnoreError = true
+			}
+		}
+		// a generates entry written `${G:?}/…` (method checksum): an error of the check while G is not set
+		if (t.Method == "" || t.Method == "checksum") && len(t.Sources) > 0 && g.chance(15) {
+			for gi, gg := range t.Generates {
+				if !gg.Tmpl && !gg.Neg {
+					t.GGuard = []int{gi}
+					break
+				}
+			}
 		}
 		d.Tasks = append(d.Tasks, t)
 		infos = append(infos, info)
@@ -2100,8 +2304,13 @@ func (g *fhGen) gen(maxLen int) fhCase {
 			s.Mode = "run"
 		}
 		s.Yes = !t.Prompt && g.chance(20) || t.Prompt && g.chance(60)
+		for _, tt := range d.Tasks {
+			if len(tt.GGuard) > 0 && g.chance(25) {
+				s.NoG = true
+			}
+		}
 		if s.Mode == "run" && g.prop == "c04" && len(t.Status) > 0 && len(t.Sources) > 0 && g.chance(12) {
-			s.Sib, s.Yes = true, true
+			s.Sib, s.Yes, s.NoG = true, true, false // (whose error the parent reports when both happen is a race)
 			d.Steps = append(d.Steps, s)
 			continue
 		}
@@ -2156,6 +2365,16 @@ func (g *fhGen) decorate(d *fhCase) {
 					d.LinkDirs = append(d.LinkDirs, r+sub)
 				}
 			}
+		}
+	}
+	if len(d.Dangling) == 0 && g.chance(12) {
+		// links to nothing next to the sources (names outside every universe)
+		for _, t := range d.Tasks {
+			root := ""
+			if t.Dir != "" {
+				root = t.Dir + "/"
+			}
+			d.Dangling = append(d.Dangling, root+g.pick([]string{"zz.e", "d/zz.e", "e/zz.x", "zz.x"}))
 		}
 	}
 	if g.chance(35) {
@@ -2237,6 +2456,9 @@ func runFingerHist(c *Ctx, prop string) {
 		if d.SilentFile {
 			c.Hit("render:silent-taskfile")
 		}
+		if len(d.Dangling) > 0 {
+			c.Hit("render:dangling-links")
+		}
 		for _, s := range d.Steps {
 			steps++
 			if s.Kind == "inv" {
@@ -2247,6 +2469,9 @@ func runFingerHist(c *Ctx, prop string) {
 				if s.Sib {
 					c.Hit("env:cancelled-by-sibling")
 					interesting = true
+				}
+				if s.NoG {
+					c.Hit("env:G-unset")
 				}
 				if s.Fail >= 0 {
 					c.Hit("env:fail")
@@ -2282,6 +2507,17 @@ func runFingerHist(c *Ctx, prop string) {
 			}
 			if t.Silent {
 				c.Hit("render:silent-task")
+			}
+			if t.IgnoreError {
+				c.Hit("shape:ignore_error-task")
+			}
+			if len(t.GGuard) > 0 {
+				c.Hit("shape:guarded-generates")
+			}
+			for _, gl := range t.Sources {
+				if strings.Contains(gl.Glob, "{") {
+					c.Hit("shape:brace-pattern")
+				}
 			}
 			for _, cm := range t.Cmds {
 				if cm.Silent && cm.Need == "" {
